@@ -25,21 +25,34 @@ from simkit import env, report, orchestrator, rng as R, digest
 def e1_task(i):
     from engines import e1_sampler as e1
     from engines import e1_monitors as mon
-    from checks.c01 import SpecC01
     mon.install_taps()
     rng = R.run_rng('selftest-e1', 'quick', 0, i)
-    cfg = e1.draw_cfg(rng, dict(n_live=[20, 30], n_batch=[5, 10, 20]))
+    hard = i % 2 == 1
+    profile = dict(n_live=[20, 30], n_batch=[5, 10, 20], p_pool_l=0.5,
+                   p_pool_s=0.3)
+    if hard:
+        # every fault kind, incl. exception-kills inside checkpoint writes
+        # and restarts over a leftover file; all pool flavours
+        profile.update(ckpt=True, fault_kinds=[
+            'stop_resume', 'kill', 'kill_in_write', 'slice', 'timeout',
+            'observe', 'toggle'])
+    cfg = e1.draw_cfg(rng, profile)
     cfg['cap_rows'] = 1500
     twin = e1.run_twin(cfg, wall=60)
     if twin['status'] != 'ok':
         return ('e1', i, 'twin-' + twin['status'], None)
-    ops = e1.draw_history(rng, cfg, twin['timeline'], {})
-    mons = [mon.MonC01(), mon.MonC02(), mon.MonC03(), mon.MonC10(),
-            mon.MonC12()]
+    ops = e1.draw_history(rng, cfg, twin['timeline'], profile,
+                          twin.get('probes'))
+    if hard and rng.random() < 0.5:
+        ops = [['run', 30], ['restart_fresh']] + ops
+    mons = [mon.MonC01(), mon.MonC03(), mon.MonC10(), mon.MonC12()]
+    if not hard:
+        mons.append(mon.MonC02())
     res = e1.execute(dict(cfg=cfg, ops=ops), mons, wall=120)
     return ('e1', i, res['status'], [twin['events_digest'],
                                      res.get('events_digest'),
-                                     res.get('result'), res.get('sig_seq')])
+                                     res.get('result'), res.get('sig_seq'),
+                                     res.get('faults')])
 
 
 def e3_task(i):
@@ -90,7 +103,7 @@ def poisoned_clock_task(i):
     return ('clock', i, 'ok', hits)
 
 
-TASKS = dict(e1=(e1_task, 24), e3=(e3_task, 160), e4=(e4_task, 16))
+TASKS = dict(e1=(e1_task, 40), e3=(e3_task, 160), e4=(e4_task, 16))
 
 
 def run_all(workers):
